@@ -334,6 +334,68 @@ def run_workers(pid, ex, binpath, tier, seed, nworkers, cases, budget, first_wor
     return outdir, results
 
 
+
+def run_fuzz(pid, ex, tier, seed, jobs, secs, normal_bin):
+    """coverage-guided campaign with libFuzzer over the same executor; returns (stats dict, hashes set, [failing tapes])"""
+    try:
+        info = run([normal_bin, "--info"]).stdout.decode().split()
+        tape_max = int(info[2])
+    except Exception:
+        tape_max = 256
+    binpath = build_exec(pid, ex, fuzz=True)
+    outdir = os.path.join(BUILD, pid, "fuzz-" + ex["name"])
+    shutil.rmtree(outdir, ignore_errors=True)
+    os.makedirs(outdir)
+    seeds = os.path.join(outdir, "seeds")
+    os.makedirs(seeds)
+    for t in glob.glob(os.path.join(VERIF, "replays", pid, ex["name"] + "-*.tape")):
+        shutil.copy(t, seeds)
+    with open(os.path.join(seeds, "empty"), "wb"):
+        pass
+    procs = []
+    for j in range(jobs):
+        corpus = os.path.join(outdir, "corpus-%d" % j)
+        os.makedirs(corpus)
+        env = dict(os.environ)
+        env["VP_FUZZ_OUT"] = outdir
+        env["ASAN_OPTIONS"] = ASAN_ENV
+        if tier == "thorough":
+            env["VP_FUZZ_THOROUGH"] = "1"
+        cmd = [binpath, corpus, seeds, "-seed=%d" % (seed * 100 + j + 1), "-max_total_time=%d" % secs,
+               "-max_len=%d" % max(64, tape_max * 2), "-artifact_prefix=%s/job%d-" % (outdir, j),
+               "-detect_leaks=0", "-verbosity=0", "-print_final_stats=0", "-timeout=25", "-rss_limit_mb=3000"]
+        lf = open(os.path.join(outdir, "job%d.log" % j), "wb")
+        procs.append((subprocess.Popen(cmd, stdout=lf, stderr=subprocess.STDOUT, env=env), lf))
+    for p, lf in procs:
+        try:
+            p.wait(timeout=secs * 3 + 120)
+        except subprocess.TimeoutExpired:
+            p.kill()
+            p.wait()
+        lf.close()
+    st = {"jobs": jobs, "seconds": secs, "cases": 0, "nontrivial": 0, "class_counts": {}, "ignored_artifacts": 0}
+    hashes = set()
+    for jp in glob.glob(os.path.join(outdir, "fuzz-*.json")):
+        try:
+            js = json.load(open(jp))
+        except Exception:
+            continue
+        st["cases"] += js["cases"]
+        st["nontrivial"] += js["nontrivial"]
+        for k, v in js["class_counts"].items():
+            st["class_counts"][k] = st["class_counts"].get(k, 0) + v
+        hp = jp[:-5] + ".hashes"
+        if os.path.exists(hp):
+            b = open(hp, "rb").read()
+            for (v,) in struct.iter_unpack("<Q", b[:len(b) // 8 * 8]):
+                hashes.add((ex["name"], v))
+    fails = glob.glob(os.path.join(outdir, "job*-crash-*")) + glob.glob(os.path.join(outdir, "job*-leak-*")) + \
+        glob.glob(os.path.join(outdir, "fail-*.tape"))
+    st["ignored_artifacts"] = len(glob.glob(os.path.join(outdir, "job*-timeout-*")) + glob.glob(os.path.join(outdir, "job*-oom-*")) +
+                                  glob.glob(os.path.join(outdir, "job*-slow-unit-*")))
+    return st, hashes, fails
+
+
 def check(pid, tier, seed):
     tgt = targets.TARGETS[pid]
     t0 = time.time()
@@ -443,6 +505,22 @@ def check(pid, tier, seed):
                                         % (ex["name"], w, rc, hang, logtxt[-1500:]))
                 else:
                     internal.append("%s worker %d died (rc=%s) without a tape; log tail: %s" % (ex["name"], w, rc, logtxt[-1500:]))
+        # -- 3b. coverage-guided campaign (libFuzzer) over the same executor
+        fz = ex.get("fuzz", None)
+        if fz is None:
+            fz = {"thorough": (8, 60)} if ex.get("san", "asan") == "asan" else {}
+        if fz and tier in fz:
+            jobs, secs = fz[tier]
+            fst, fh, ffails = run_fuzz(pid, ex, tier, seed, min(jobs, NCPU), secs, binpath)
+            exstat["fuzz"] = fst
+            cov["evaluations"] += fst["cases"]
+            allhashes |= fh
+            seenf = set()
+            for ft in ffails:
+                st_, key, msg, _ = replay(binpath, ft, flags, timeout=30)
+                if st_ == 1 and coarse(key) not in seenf and not (key == "HANG" and not ex.get("hang_is_violation")):
+                    seenf.add(coarse(key))
+                    violations.append((ft, key, msg, ex["name"]))
         cov["executors"][ex["name"]] = exstat
         cov["evaluations"] += exstat["cases"]
         for k, v in exstat["class_counts"].items():
